@@ -22,6 +22,7 @@ CONSTANTS
   PauseKeepsRegistered = FALSE
   RejoinPausedNoAvail = FALSE
   ResetSeparate = FALSE
+  JumpToFirstAvailable = FALSE
 SPECIFICATION Spec
 VIEW View
 PROPERTIES Steps
